@@ -9,6 +9,19 @@ name with its first non-empty label removed — the wildcard never spans more th
 never stands for part of a label, and is never applied to IP literals, which match only an
 identical iPAddress entry or a byte-identical Common Name.  A certificate name with an
 embedded NUL, or a dNSName consisting of a single space, is … never a match."
+
+Reading choices (each is the stricter / literal one):
+* "`*.` followed by at least two non-empty labels": the two labels that directly follow
+  `*.` are non-empty (`*.a.b`, `*.a.b.`, `*.a.b..c` qualify; `*.b`, `*.b.`, `*..a.b`,
+  `*.a..b` do not).  The unchanged code accepted `*.b.` — defect F17.
+* "the requested name with its first non-empty label removed": the name is
+  `label ++ dom` with a non-empty dot-free first label and `dom` beginning with a dot; a name
+  that starts with a dot has no such label and is never covered by a wildcard.
+* "or, failing that, the subject Common Name": the Common Name (the first one of the
+  subject) is consulted whenever the subjectAltName scan produced neither a match nor an
+  error — also when a subjectAltName extension is present (this is what the code does and
+  the statement allows: it only bounds what may be accepted).
+* "IP literal": a name the linked `inet_pton` accepts for AF_INET or AF_INET6 (`ipLit`).
 -/
 namespace Usual.C08
 
